@@ -105,6 +105,34 @@ def plan(tier, seed):
             cfg['schedule'] = precip_gen.gen_schedule(rng, cfg['system'], precip.schedule_eval(cfg['schedule'], 0.0), True, sum(cfg['segments']))
         cfg['max_steps'] = 400 if tier == 'quick' else 1200
         cases.append({'kind': 'sched', 'cfg': cfg, 'via': ['ctor', 'setter'][i % 2], 'weight': 1e5})
+    # multi-stage treatments: a new temperature (constant / break points) set through the public setter between solve() calls
+    # (added after seeded change C13-b: the schedule was not re-evaluated for 'isothermal' specifications)
+    for i in range(4 if tier == 'quick' else 24):
+        rng = core.case_rng(seed, PROPERTY, 3000 + i)
+        system = ['alzr', 'nialcr', 'alzr', 'almgsi'][i % 4]
+        if system == 'alzr':
+            cfg = _alzr_noniso(rng, tier, slow=False)
+            T1 = float(rng.uniform(700, 760))
+            dur = sum(cfg['segments'])
+        else:
+            cfg = precip_gen.gen_config(rng, system=system, tier=tier, allow_noniso=False, grid_class='in_range', sites=['bulk', 'dislocations'])
+            T1 = precip.schedule_eval(cfg['schedule'], 0.0)
+            dur = sum(cfg['segments'])
+        nst = int(rng.integers(2, 4))
+        cfg['segments'] = [float(dur / nst)] * nst
+        stages = [{'kind': 'iso', 'T': T1}]
+        for k in range(1, nst):
+            Tk = T1 + float(rng.uniform(15, 60)) * (1 if rng.random() < 0.5 else -1)
+            if rng.random() < 0.7:
+                stages.append({'kind': 'iso', 'T': Tk})
+            else:
+                t0h = k * dur / nst / 3600.0
+                stages.append({'kind': 'array', 'hours': [t0h, t0h + 0.5 * dur / nst / 3600.0], 'temps': [stages[-1].get('T', T1), Tk]})
+        cfg['schedule'] = stages[0]
+        cfg['stage_schedules'] = stages
+        cfg['max_steps'] = 100 if tier == 'quick' else 300
+        cfg['cap_per_segment'] = True
+        cases.append({'kind': 'sched', 'cfg': cfg, 'via': ['setter', 'ctor'][i % 2], 'weight': 2e5})
     for i in range(N_PAIR[tier]):
         rng = core.case_rng(seed, PROPERTY, 2000 + i)
         if i % 3 == 2:
